@@ -647,6 +647,7 @@ int fstack_entry(struct uftrace_task_reader *task, struct uftrace_record *rstack
 			}
 			else if (strstr(fixup->name, "longjmp")) {
 				fstack->flags |= FSTACK_FL_LONGJMP;
+				task->longjmp_depth = rstack->depth;
 			}
 			else if (strstr(fixup->name, "fork") || !strcmp(fixup->name, "daemon") ||
 				 !strcmp(fixup->name, "posix.fork")) {
@@ -2102,10 +2103,12 @@ static void fstack_update_stack_count(struct uftrace_task_reader *task)
 	else
 		task->ctx = FSTACK_CTX_UNKNOWN;
 
-	if (rstack->type == UFTRACE_EXIT && task->longjmp_pending) {
+	if (rstack->type == UFTRACE_EXIT && task->longjmp_pending &&
+	    (int)rstack->depth <= task->longjmp_depth) {
 		/*
 		 * The EXIT record following a longjmp() belongs to the setjmp()
-		 * it went back to.  The fix-up in fstack_update() could only
+		 * it went back to (records deeper than the longjmp() itself come
+		 * from a signal handler that ran before the jump took place).  The fix-up in fstack_update() could only
 		 * assume it was the latest setjmp(); the depth in the record
 		 * tells which one it really was.
 		 */
